@@ -368,3 +368,39 @@ def duration_base_type_unordered(m1: int, s1: int, m2: int, s2: int) -> bool:
             if err_code(e) != 'XPTY0004':
                 return False
     return True
+
+
+# --- added after a defect reported during round 4: XPath 1.0 general comparisons between strings (node string-values) and numbers --------
+
+S1 = ('2', ' 2 ', 'x', '', '-1.5', '10')    # (no exponent form: the XPath 1.0 grammar has none, libxml2 accepts it)
+
+
+def _num1(s):
+    """XPath 1.0 number(): optional minus, digits with optional fraction, surrounded by white space; anything else is NaN"""
+    t = s.strip(' ' + chr(9) + chr(10) + chr(13))
+    import re as _re
+    return float(t) if _re.fullmatch(r'-?(\d+(\.\d*)?|\.\d+)', t) else float('nan')
+
+
+@ob(budget=200, bound='XPath 1.0 parser: left operand a string from a table of 6 followed by the string x (numeric, padded, non-numeric, empty, negative decimal, '
+                      'two digits; indices chosen by the solver), right operand an integer in [-2, 2], in both operand orders: the six general '
+                      'comparisons convert the strings with number() (NaN when not a number) and are true iff some pair satisfies the comparison',
+    funcs=[B + ':iter_comparison_data (compatibility mode, version 1.0)', 'elementpath/xpath1/_xpath1_operators.py:evaluate__comparison_operators'])
+def general_string_number_xpath1(i0: int, b: int, swap: bool) -> bool:
+    """
+    pre: 0 <= i0 <= 5 and -2 <= b <= 2
+    post: _
+    """
+    A = [S1[[k for k in range(6) if k == i0][0]], 'x']
+    b = [k for k in range(-2, 3) if k == b][0]
+    nums = [_num1(s) for s in A]
+    for k, f in OPS.items():
+        if swap:
+            got = _gen(k, [b], A, TG1)
+            want = any(f(float(b), x) for x in nums)
+        else:
+            got = _gen(k, A, [b], TG1)
+            want = any(f(x, float(b)) for x in nums)
+        if got is not want:
+            return False
+    return True
